@@ -41,11 +41,11 @@ func init() {
 			if tier == "quick" {
 				return 96
 			}
-			return 960
+			return 2400
 		},
 		Run:          runC16,
 		Race:         true,
-		Required:     []string{"epochs.parallel", "epochs.multi_species_storing", "histories.checked", "histories.ok", "delays.injected", "gomaxprocs.1", "gomaxprocs.16", "cold_starts"},
+		Required:     []string{"epochs.parallel", "epochs.multi_species_storing", "histories.checked", "histories.ok", "delays.injected", "gomaxprocs.1", "gomaxprocs.16", "cold_starts", "epochs.cancelled_mid_reproduction"},
 		TimeoutSec:   func(tier string) int { return 7200 },
 		PostChildren: c16CollectRaces,
 	})
@@ -88,6 +88,7 @@ func runC16(c *Ctx, idx int) {
 		delay: r.Intn(3) == 0,
 		dseed: r.Int63(),
 	}
+	sc.CancelAtEnd = r.Intn(2) == 0
 	runScenario(c, sc, mon)
 }
 
